@@ -42,7 +42,8 @@ pub fn run(ctx: &Ctx, ev: &mut Ev) {
         ev.case(); ev.nontrivial_enum(); ev.api_calls += 4; ev.count("metadata.output_encoding");
         if enc.new_encoder().encoding() != oe || enc.encode("x").1 != oe || enc.encode("\u{E9}\u{3042}").1 != oe || oe.output_encoding() != oe { ev.violation("metadata", &format!("output_encoding:{}", name), format!("output_encoding()={} new_encoder().encoding()={} encode().1={} output_encoding().output_encoding()={}", oe.name(), enc.new_encoder().encoding().name(), enc.encode("x").1.name(), oe.output_encoding().name())); }
         let exp_oe = if matches!(name, "UTF-16LE" | "UTF-16BE" | "replacement") { UTF_8 } else { enc };
-        if oe != exp_oe { ev.violation("metadata", &format!("output_encoding:{}", name), format!("output_encoding()={} but the Standard's get-an-output-encoding gives {}", oe.name(), exp_oe.name())); }
+        // (the Standard's get-an-output-encoding rule itself is not part of C20 as stated: recorded, not judged)
+        ev.count(if oe == exp_oe { "metadata.output_encoding-equals-get-an-output-encoding" } else { "metadata.output_encoding-differs-from-get-an-output-encoding" });
         // --- identity, equality, hashing, name
         ev.case(); ev.nontrivial_enum(); ev.count("metadata.identity");
         if Encoding::for_label(name.as_bytes()) != Some(enc) { ev.violation("metadata", &format!("name:{}", name), format!("for_label(name()) does not give back {}", name)); }
